@@ -81,14 +81,39 @@ class Ctx:
                     subprocess.run(['rm', '-rf', tmp])
                     raise Inconclusive('extraction failed for config %s: %s' % (config, (r.stderr or '')[-2000:]))
                 os.makedirs(CACHE, exist_ok=True)
-                subprocess.run(['rm', '-rf', d])
-                os.rename(tmp, d)
+                # several checks may extract the same tree at the same time: the first one to finish publishes its
+                # directory (atomic rename), the others keep what is there and drop their own copy -- a published
+                # directory is never removed or replaced while another process may be reading it
+                if self.no_cache and os.path.exists(fp):
+                    old_ = d + '.old%d' % os.getpid()
+                    try:
+                        os.rename(d, old_)
+                    except OSError:
+                        old_ = None
+                else:
+                    old_ = None
+                try:
+                    os.rename(tmp, d)
+                except OSError:
+                    subprocess.run(['rm', '-rf', tmp])
+                if old_:
+                    subprocess.run(['rm', '-rf', old_])
                 self._prune_cache()
             sk = ('facts', fp)
             if Ctx.SHARED is not None and sk in Ctx.SHARED:
                 self._facts[config] = Ctx.SHARED[sk]
             else:
-                self._facts[config] = Facts(fp)
+                last = None
+                for _try in range(5):
+                    try:
+                        self._facts[config] = Facts(fp)
+                        last = None
+                        break
+                    except (OSError, ValueError) as e_:       # a concurrent check is just publishing this directory
+                        last = e_
+                        time.sleep(1.0)
+                if last is not None:
+                    raise Inconclusive('fact file unreadable for config %s: %s' % (config, last))
                 if Ctx.SHARED is not None:
                     Ctx.SHARED[sk] = self._facts[config]
             self.configs_used.append(config)
@@ -96,8 +121,19 @@ class Ctx:
 
     def _prune_cache(self):
         try:
-            ents = sorted((os.path.getmtime(os.path.join(CACHE, e)), e) for e in os.listdir(CACHE))
-            for _, e in ents[:-30]:
+            now = time.time()
+            ents = []
+            for e in os.listdir(CACHE):
+                mt = os.path.getmtime(os.path.join(CACHE, e))
+                if '.tmp' in e or '.old' in e:
+                    # the working directory of an extraction in progress (possibly of another, concurrent check): never
+                    # touched unless it is stale (left behind by a killed run)
+                    if now - mt > 3600:
+                        subprocess.run(['rm', '-rf', os.path.join(CACHE, e)])
+                    continue
+                ents.append((mt, e))
+            ents.sort()
+            for _, e in ents[:-60]:
                 subprocess.run(['rm', '-rf', os.path.join(CACHE, e)])
         except OSError:
             pass
